@@ -1774,12 +1774,12 @@ func ruleTabSearch(c *Ctx) {
 	need := []string{"MajorOrPerfectCoerceDegree", "MinorOrDiminishedCoerceDegree", "AugmentedCoerceDegree"}
 	n := 0
 	for _, ci := range callsIn(fn) {
-		callee := staticCallee(ci.Common())
-		if callee == nil || callee.Parent() != fn {
-			continue
-		}
+		// a call (of a local closure or of a helper) that is handed a list of notation classes to search
 		args := ci.Common().Args
 		if len(args) == 0 {
+			continue
+		}
+		if st, ok := args[len(args)-1].Type().Underlying().(*types.Slice); !ok || typeName(st.Elem()) != "note.CoerceDegreeName" {
 			continue
 		}
 		list, ok := variadicConsts(args[len(args)-1])
